@@ -10,11 +10,13 @@
 //	big       one metric with more series than one (thorough: two) roaring containers hold
 //	conc      queries while flushes / compactions / writes run freely
 //	unmap     a group-by query held between shard scan and grouping while the forward family is compacted
-//	directed  fixed scenarios (single-star like, atoms with equal Rewrite text, unknown tag key, a query parked
-//	          between its snapshot and its memory read while a flush completes)
+//	directed  fixed scenarios (single-star like, atoms with equal Rewrite text, refusal of an unknown tag key, comma
+//	          values in group by, a query parked between its snapshot and its memory read while a flush completes)
 //
 // Debugging one case by hand: LOG_LEVEL=fatal TZ=UTC VERIF_SEED=n bin/c10 case hist <idx> <dir> quick
-// (C10_ONLY_PLACEMENT=<name> runs one placement).
+// (C10_ONLY_PLACEMENT=<name> runs one placement, C10_VERBOSE=1 prints every query). For the conc cases:
+// C10_CONC_NOCOMPACT=1 (no compactions), C10_CONC_NOUNMAP=1 (table files stay mapped: separates use-after-unmap from
+// everything else), C10_CONC_DEBUG=1 (re-runs a query with missing series and its atoms).
 package main
 
 import (
@@ -55,8 +57,10 @@ func main() {
 		"a condition no series satisfies gives an empty result (or a `not found` error), not a failure; an expression Go's regexp rejects fails the query")
 	c.Assume("group by: series lacking one of the grouping keys are left out (index.forwardIndex.GetGroupingContext intersects the selected series with the series of every grouping key); " +
 		"every series carries one point of a sum field whose value is the series' own weight, so the returned sum of a group identifies the series aggregated into it")
-	c.Assume("a query naming a tag key no series of the metric has is answered with `tag key not found`; that is accepted where the oracle expects nothing and reported " +
-		"(class C10/unknown-tag-key-fails-satisfiable-condition) where other atoms of the condition select series")
+	c.Assume("a query naming (in the condition or in group by) a tag key that is not in the metric's schema at query time - no written series of the metric carries it - is refused by lindb with " +
+		"an explicit `tag key not found` error, also inside an `or` (like an unknown column): no set is selected, so this is not a wrong selection. The oracle requires exactly that refusal " +
+		"when, and only when, such a key is named (counter unknown_key_refused; an empty result without error counts as the same refusal, the root drops a fast leaf's error now and then); " +
+		"the same error for a key the schema has, or an answer instead of the refusal, is a violation")
 	c.Assume("timestamps lie 2 hours in the past of the child's start (hour aligned + 10 min); TZ=UTC for the children; race detector reports do not decide C10, no race variant is built")
 
 	var jobs []job
